@@ -36,9 +36,9 @@ FwdProgV(e) ==
                      /\ ((NamedNames(oEff) \cup NamedNames(i) \cup {Foreign}) \ {"self"}) \subseteq Rng(e.kwpool)
       badO == Shapes(e.bad_outer)  badI == Shapes(e.bad_inner)  bad == badO \cup badI
       rep == e.reported
-      simple == ~(fl.ha \/ fl.hk \/ fl.partial) /\ ~\E x \in PosIdx(oEff) : oEff[x].d
+      simple == ~(fl.ha \/ fl.hk \/ fl.partial) /\ ~e.nomodel /\ ~\E x \in PosIdx(oEff) : oEff[x].d
       (* with hide flags the written call passes further, unknown star arguments: the model cannot predict them *)
-      predictable == ~(fl.ha \/ fl.hk \/ fl.partial) /\ ~e.skipexec /\ ~e.starfree_only
+      predictable == ~(fl.ha \/ fl.hk \/ fl.partial) /\ ~e.skipexec /\ ~e.starfree_only /\ ~e.nomodel
       (* placements whose real callee is, by construction, not what anything visible says: a star parameter of the report promises *)
       (* nothing there; only call shapes that put nothing into a star are decided by execution                                    *)
       decidable(c) == e.starfree_only => (c.np <= Len(Posi(rep.ps)) /\ c.kw \subseteq KwPassable(rep.ps))
